@@ -107,7 +107,7 @@ func goEnv() []string {
 		}
 		out = append(out, e)
 	}
-	return append(out, "GOFLAGS=-mod=mod", "GOPROXY=off", "GOWORK=off")
+	return append(out, "GOFLAGS=-mod=mod -trimpath", "GOPROXY=off", "GOWORK=off")
 }
 
 // GenConfig is one generator configuration to materialise.
